@@ -135,12 +135,19 @@ def run_case(c):
     if c["kind"] == "supercells":
         cd = crystals.make(**c["crystal"])
         unit = crystals.to_atoms(cd)
+        frng = np.random.default_rng(len(c["mats"]) + sum(int(v) for v in np.ravel(c["mats"][0])))
         for S in c["mats"]:
             built = {}
             for old in (True, False):
                 algo = "old" if old else "snf"
+                # the matrix as the caller may hold it: nested list, int64 / intc / float arrays, Fortran order, non-owning view
+                form = ["list", "int64", "intc", "float", "fortran", "view"][int(frng.integers(6))]
+                S_in = {"list": lambda: [list(map(int, r)) for r in S], "int64": lambda: np.array(S, dtype="int64"), "intc": lambda: np.array(S, dtype="intc"),
+                        "float": lambda: np.array(S, dtype="double"), "fortran": lambda: np.asfortranarray(np.array(S, dtype="int64")),
+                        "view": lambda: np.array(S, dtype="int64").T.copy().T}[form]()
+                obs["matrix_form_" + form] = obs.get("matrix_form_" + form, 0) + 1
                 try:
-                    sc = Supercell(unit, S, is_old_style=old)
+                    sc = Supercell(unit, S_in, is_old_style=old)
                 except Exception as e:
                     bad("supercell_refused", "tileable input raised %r" % (e,), algorithm=algo, matrix=S)
                     continue
